@@ -121,6 +121,15 @@ NESTED_NULLS = [
 SPECIAL_PAYLOADS = SPECIAL_PAYLOADS[:1] + NESTED_NULLS + SPECIAL_PAYLOADS[1:]
 SPECIAL_PAYLOADS = SPECIAL_PAYLOADS + [TWINS]
 ENUM_METHODS = ["PING", "TOOLS_CALL", "NOTIFICATION_PROGRESS", "NOTIFICATION_CANCELLED"]
+# caller params that already carry `_meta` (other keys, falsy values, nested nulls, a stale progress token)
+META_PAYLOADS = [
+    {"o": [[J.cps("_meta"), {"o": [[J.cps("progressToken"), J.S("stale")], [J.cps("x"), None]]}], [J.cps("k"), None]]},
+    {"o": [[J.cps("_meta"), {"o": [[J.cps("a"), {"i": 0}], [J.cps("b"), J.S("")], [J.cps("c"), {"a": []}], [J.cps("d"), {"o": [[J.cps("n"), None]]}],
+                                   [J.cps("e"), False]]}], [J.cps("arguments"), {"o": [[J.cps("cursor"), None]]}]]},
+    {"o": [[J.cps("_meta"), {"o": []}]]},
+    {"o": [[J.cps("_meta"), {"o": [[J.cps("progressToken"), {"i": 0}]]}], [J.cps("z"), {"a": [None]}]]},
+    {"o": [[J.cps("x"), {"o": [[J.cps("_meta"), {"o": [[J.cps("deep"), None]]}]]}], [J.cps("_meta"), {"o": [[J.cps("trace"), J.S("é\u2028")]]}]]},
+]
 BAD_META = [
     {"o": [[J.cps("_meta"), None]]}, {"o": [[J.cps("_meta"), {"s": J.cps("str")}]]}, {"o": [[J.cps("_meta"), {"a": []}]]},
     {"o": [[J.cps("_meta"), {"i": 1}]]},
@@ -256,18 +265,23 @@ def gen_cases(ctx, budget, names):
                         out.append(_case(name, **a))
                 if short == "create_request" and not legacy:
                     for tok in ids:
-                        for p in [None, {"o": []}] + SPECIAL_PAYLOADS + BAD_META:
+                        for p in [None, {"o": []}] + SPECIAL_PAYLOADS + META_PAYLOADS + BAD_META:
                             out.append(_case(name, method=pick_text(), params=p, id=pick_id(), tok=tok))
         elif fam == "send_message":
             for mid in [None, [], J.cps("abc"), J.cps("123"), J.cps("é ")]:
                 for progress in (False, True):
-                    for p in [None, {"o": []}] + SPECIAL_PAYLOADS + (BAD_META if progress else []) + objs[:: (9 if quick else 2)]:
+                    for p in [None, {"o": []}] + SPECIAL_PAYLOADS + META_PAYLOADS + (BAD_META if progress else []) + objs[:: (9 if quick else 2)]:
                         out.append(_case(name, method=pick_text(), params=p, mid=mid, progress=progress))
             for _ in range(200 if quick else 1000):
                 out.append(_case(name, method=pick_text(), params=rand_obj(rng), mid=rng.choice([None, J.cps("m1")]), progress=rng.random() < 0.5))
             for en in ENUM_METHODS:
                 for progress in (False, True):
                     out.append(_case(name, method_enum=en, params=SPECIAL_PAYLOADS[1], mid=J.cps(" 7 "), progress=progress))
+            for p in META_PAYLOADS:  # caller `_meta` x progress callback x cancellation token
+                for progress in (False, True):
+                    out.append(_case(name, method=pick_text(), params=p, mid=J.cps("7"), cancel=rng.choice([1, 512, 513]), tie=rng.choice(["events", "timers", "io"]),
+                                     progress=progress))
+                    out.append(_case(name, method=pick_text(), params=p, mid=None, timeout0=True, progress=progress))
             for p in [None, {"o": []}, TWINS]:
                 out.append(_case(name, method=pick_text(), params=p, mid=rng.choice([None, J.cps("0")]), timeout0=True))
                 out.append(_case(name, method=pick_text(), params=p, mid=J.cps("7"), cancel="pre", progress=True))
@@ -612,6 +626,40 @@ def method_cps(a):
     return a["method"]
 
 
+def strip_token(params_t, caller_t):
+    """emitted params with what the API documents as added taken out again: `_meta.progressToken`, and the `_meta` /
+    params objects themselves when the caller had none.  Returns (stripped params, token or None)."""
+    if not (isinstance(params_t, dict) and "o" in params_t):
+        return params_t, None
+    caller = members(caller_t) if caller_t is not None else None
+    out, tok = [], None
+    for k, v in params_t["o"]:
+        if R.s_(k) == "_meta" and isinstance(v, dict) and "o" in v:
+            rest = []
+            for k2, v2 in v["o"]:
+                if R.s_(k2) == "progressToken":
+                    tok = v2
+                else:
+                    rest.append([k2, v2])
+            if not rest and (caller is None or "_meta" not in caller):
+                continue  # `_meta` was created for the token only
+            out.append([k, {"o": rest}])
+        else:
+            out.append([k, v])
+    return {"o": out}, tok
+
+
+def without_stale_token(caller_t):
+    """the caller's params without a progress token of their own (the call replaces it)"""
+    if caller_t is None:
+        return {"o": []}
+    return strip_token(caller_t, caller_t)[0]
+
+
+def canon_opt(t):
+    return None if t is None else canon(t)
+
+
 def expected_payload(case):
     """(member, expected transport value | ABSENT) where the emitter's contract fixes the payload position"""
     em, a = case["emitter"], case["args"]
@@ -625,6 +673,8 @@ def expected_payload(case):
             short = inner_ctor(inner)
             if "legacy-response" in inner:
                 return [("id", a.get("id"))]
+        if short == "create_request" and a.get("tok") is not None and fam == "ctor":
+            return [("params+token", a.get("params")), ("id", a.get("id"))]
         if short in ("create_request", "create_notification") and a.get("tok") is None:
             meth = []
             if a.get("method_enum"):
@@ -649,10 +699,21 @@ def expected_payload(case):
                 return [("id", a.get("id"))]
             return [("result", {"o": []} if r is None else r), ("id", a.get("id"))]
         return [("id", a.get("id"))]
-    if fam == "send_message" and a.get("cancel") is not None:
-        return []
-    if fam == "send_message" and not a.get("progress"):
-        return [("params", a.get("params"))] + ([("id", {"s": a["mid"]})] if a.get("mid") else [])
+    if fam == "send_message":
+        if a.get("cancel") == "pre":
+            return []  # only the cancellation notification is written
+        return [("params+token" if a.get("progress") else "params", a.get("params"))] + ([("id", {"s": a["mid"]})] if a.get("mid") else [])
+    if fam == "helper":
+        # the typed helpers hand caller-supplied dicts through: `arguments` (tools/call, prompts/get; an empty one may be
+        # left out) and `metadata` (sampling)
+        pn = inspect_params(em)
+        pl = a.get("payload")
+        out = []
+        if "arguments" in pn and not a.get("badtype") and isinstance(pl, dict) and pl.get("o"):
+            out.append(("params.arguments", pl))
+        if "metadata" in pn and pl is not None:
+            out.append(("params.metadata", pl))
+        return out
     if fam == "server" and a.get("scenario") == "custom-result":
         r = a.get("payload")
         return [("result", {"o": []} if r is None else r), ("id", a.get("id"))]
@@ -670,6 +731,7 @@ class Emitters(Suite):
         self._obs = {}
         self.unknown = []
         self.skipped = {}
+        self.mutations = {}
 
     def _discover(self):
         return R.discover()
@@ -717,11 +779,36 @@ class Emitters(Suite):
                 r = check_emitted(case, e, form)
                 if r is not None:
                     return r
+        ex = o.get("extra") or {}
+        if "caller_after" in ex and canon_opt(ex["caller_after"]) != canon_opt(ex["caller_before"]):
+            how = "adds _meta.progressToken only" if canon_opt(strip_token(ex["caller_after"], ex["caller_before"])[0] if ex["caller_after"] else None) == \
+                canon_opt(without_stale_token(ex["caller_before"]) if ex["caller_before"] is not None else None) else "changes more than _meta.progressToken"
+            key = f"{case['emitter'].split('.')[-1]}: {how}"
+            self.mutations[key] = self.mutations.get(key, 0) + 1
         # payload / id fidelity where the emitter's contract fixes the position
         if o["emitted"] and "dump" in o["emitted"][0] and "wire" in o["emitted"][0]["dump"]:
             mem = members(o["emitted"][0]["dump"]["wire"]) or {}
             for k, want in expected_payload(case):
                 if k == "id" and want is None:
+                    continue
+                if k == "params+token":
+                    # the caller's params, plus exactly `_meta.progressToken`
+                    if "method" not in mem or "id" not in mem:
+                        continue  # not the request (e.g. only a cancellation went out)
+                    got, tok = strip_token(mem.get("params"), want)
+                    if tok is None or not is_id(tok):
+                        return ("progress-token-missing", f"{case['emitter']}: the request carries no progress token under params._meta", None)
+                    if got is None or canon(got) != canon(without_stale_token(want)):
+                        return ("payload-altered/params", f"{case['emitter']}: given params={want}, emitted params={mem.get('params')} "
+                                f"(they may differ by _meta.progressToken only)", {"params": want})
+                    continue
+                if k.startswith("params."):
+                    sub = members(mem.get("params")) or {}
+                    got = sub.get(k.split(".", 1)[1])
+                    if got is None or canon(got) != canon(want):
+                        return (f"payload-altered/{k}", f"{case['emitter']}: given {k.split('.')[1]}={want}, emitted {k}={got}", {k: want})
+                    continue
+                if k == "params" and case["args"].get("cancel") is not None and ("method" not in mem or "id" not in mem):
                     continue
                 got = mem.get(k)
                 if k == "params" and want is None:
@@ -759,6 +846,8 @@ class Emitters(Suite):
                 for v in J.shrink_value(a[k]):
                     if k in ("params",) and not (isinstance(v, dict) and "o" in v):
                         continue
+                    if k == "params" and any(R.s_(kk) == "_meta" and not (isinstance(vv, dict) and "o" in vv) for kk, vv in v["o"]):
+                        continue  # keep `_meta` an object: anything else is not a params shape the API accepts
                     yield {"emitter": case["emitter"], "args": {**a, k: v}}
         for k in ("method", "message", "text", "mid"):
             if a.get(k):
@@ -1002,3 +1091,5 @@ def extra(ctx, tier):
     for su in _suites:
         for em, why in sorted(su.skipped.items()):
             ctx.notes.append(f"NOTE {su.name}: {em} not exercised: {why}")
+        for k, n in sorted(su.mutations.items()):
+            ctx.notes.append(f"INFO {su.name}: the caller's params dict is modified in place ({k}) in {n} case(s) - observed, not demanded")
